@@ -111,3 +111,29 @@ CHECKS["C18"] = dict(
                "decided under C04.",
     design_ref="DESIGN.md 3/C18",
 )
+
+CHECKS["C06"] = dict(
+    category="other",
+    technique="sibling cross-check: abstract evaluation of the mode dispatch + acceptance signatures by abstract "
+              "interpretation; collect-handler rule; (tier G) comparison of emitted programs",
+    text="Decides that the DISABLE, FIRST and ALL variants of every container/union loader and dumper closure have the "
+         "same acceptance signature (operations probing the raw datum, type tests, rejecting LoadError classes, element "
+         "applications, result builder) for each strictness, i.e. the three textually separate code paths accept and "
+         "reject the same data with the same error classes; and that ALL-mode collection keeps unexpected errors "
+         "unexpected. Decided for all inputs at once because it compares the closures, not their runs.",
+    level_note="Trusted: Python ast, the abstract interpreter sa/esc.py, canonicalisation table of equivalent probes "
+               "(map/iter/tuple). Equality of returned values beyond the identity of the building expression is not decided.",
+    design_ref="DESIGN.md 2.3, 3/C06",
+)
+CHECKS["C07"] = dict(
+    category="other",
+    technique="monotone-flag-use analysis; strict = lax + reject-only guards (signature inclusion); fixed-point rule "
+              "for scalar loader pairs",
+    text="Decides that the strict flag is used monotonically (key argument, positive reject-only guard, sibling "
+         "selection), that every strict container closure is its lax sibling plus reject-only guards, that every "
+         "accepting path of a strict scalar loader is exact-type guarded and returns what the lax constructor returns "
+         "for that type, and that the documented strict guards (str/Mapping exclusion, typed Literal membership) exist.",
+    level_note="Trusted: Python ast, sa/esc.py, idempotent-constructor table. Overlapping union cases are excluded by "
+               "the property itself.",
+    design_ref="DESIGN.md 3/C07",
+)
